@@ -32,6 +32,15 @@ Theorem allot_mandatory : forall mand total lv res a,
 Proof. exact update_allotment_zero. Qed.
 Print Assumptions allot_mandatory.
 
+(* Soft limit 0, the other half (this is what property C02 needs: an enqueued task runs although nobody waits in its arena):
+   whenever some arena has a mandatory (enqueued-work) request and a non-zero demand, the one worker IS granted -
+   whatever the priorities and demands of the other arenas are. *)
+Theorem mandatory_worker_is_granted : forall mand total lv res a,
+  0 < mand -> 1 <= total -> update_allotment 0 mand total lv = (res, a) ->
+  Exists (fun p => Exists (fun q : creq => 0 < fst q /\ snd q <> 0) (snd p)) lv -> a = 1.
+Proof. exact update_allotment_zero_grants. Qed.
+Print Assumptions mandatory_worker_is_granted.
+
 Example allot_example :
   update_allotment 7 0 13 [(2, [(0, 2)]); (11, [(0, 8); (0, 3)]); (0, [])] = ([[2]; [3; 2]; []], 7)
   /\ lv_ok [(2, [(0, 2)]); (11, [(0, 8); (0, 3)]); (0, [])].
